@@ -4,9 +4,11 @@
 # run.sh build [flavours...]     build only
 set -u
 export GOFLAGS=-mod=mod GOPROXY=off
-cd /verif/harness || exit 3
-BIN=/verif/work/bin
-mkdir -p "$BIN" /verif/evidence /verif/replays
+ROOT=$(cd "$(dirname "$0")" && pwd)
+export VERIF_ROOT=$ROOT
+cd "$ROOT/harness" || exit 3
+BIN=$ROOT/work/bin
+mkdir -p "$BIN" "$ROOT/evidence" "$ROOT/replays"
 build() { # flavour
   local fl=$1 flags=""
   case $fl in
